@@ -115,6 +115,33 @@ func implUnmarshal(t *tm.Type, top bool, b []byte) (r decResult) {
 	return r
 }
 
+// implUnmarshalInto decodes b into a destination that already holds the value prior (a re-used variable): the
+// result must not depend on what the destination held before.
+func implUnmarshalInto(t *tm.Type, top bool, b []byte, prior tm.Val) (r decResult, ok bool) {
+	pv, ok := tm.GoValue(t, prior)
+	if !ok {
+		return r, false
+	}
+	ptr := reflect.New(tm.GoType(t))
+	ptr.Elem().Set(pv)
+	func() {
+		defer func() {
+			if p := recover(); p != nil {
+				r.panic = p
+			}
+		}()
+		if top {
+			r.rest, r.err = tls.UnmarshalWithParams(b, ptr.Interface(), t.TagString())
+		} else {
+			r.rest, r.err = tls.Unmarshal(b, ptr.Interface())
+		}
+	}()
+	if r.err == nil && r.panic == nil {
+		r.v = tm.FromGo(t, ptr.Elem())
+	}
+	return r, true
+}
+
 // remeasure repeats a decode that looked too expensive (TotalAlloc is process-wide) and returns the least cost seen.
 func remeasure(t *tm.Type, top bool, b []byte) uint64 {
 	least := ^uint64(0)
@@ -167,6 +194,55 @@ type checker struct {
 	refDrift []string // reference codec != specification: an infrastructure error
 	maxOver  int64
 	counts   map[string]int
+	priors   map[string][]tm.Val // per type: a few values decoded earlier, used as prior content of a re-used destination
+}
+
+// lawReusedDestination: decoding into a destination that holds another value of the type gives the same result
+// (Dec is a function of the type and the bytes; a variable re-used for two decodes is ordinary use).
+func (c *checker) lawReusedDestination(t *tm.Type, top bool, b []byte, want tm.Val, wantRest []byte, tag string, replay any) {
+	if c.priors == nil {
+		c.priors = map[string][]tm.Val{}
+	}
+	key := t.String()
+	for _, prior := range c.priors[key] {
+		if prior.Equal(want) {
+			continue
+		}
+		d, ok := implUnmarshalInto(t, top, b, prior)
+		if !ok {
+			continue
+		}
+		c.count("dec:reused-destination")
+		c.rep.Eval("")
+		switch {
+		case d.panic != nil:
+			c.rep.Violate("reused-destination:panic:"+tag, fmt.Sprintf("tls.Unmarshal of %s into a destination holding %s panics: %v (type %s)", short(b), prior, d.panic, t), replay)
+		case d.err != nil:
+			c.rep.Violate("reused-destination:rejects:"+tag, fmt.Sprintf("tls.Unmarshal of %s into a destination holding %s fails (%v); into a fresh destination it returns %s (type %s)", short(b), prior, d.err, want, t), replay)
+		case !d.v.Equal(want) || !bytes.Equal(d.rest, wantRest):
+			c.rep.Violate("reused-destination:"+valueFingerprint(t, want, d.v), fmt.Sprintf("tls.Unmarshal of %s into a destination holding %s returns %s; the encoding decodes to %s (type %s)", short(b), prior, d.v, want, t), replay)
+		default:
+			// and what was decoded re-encodes to the consumed bytes
+			if gv, ok := tm.GoValue(t, d.v); ok {
+				e := implMarshal(t, top, gv)
+				consumed := b[:len(b)-len(d.rest)]
+				if e.panic != nil || e.err != nil || !bytes.Equal(e.b, consumed) {
+					c.rep.Violate("reused-destination:reencode-differs:"+tag, fmt.Sprintf("type %s: value decoded into a re-used destination re-encodes to %s (err %v), consumed %s", t, short(e.b), e.err, short(consumed)), replay)
+				}
+			}
+		}
+	}
+	ps := c.priors[key]
+	for _, p := range ps {
+		if p.Equal(want) {
+			return
+		}
+	}
+	if len(ps) < 3 {
+		c.priors[key] = append(ps, want)
+	} else {
+		ps[len(c.counts)%3] = want
+	}
 }
 
 func (c *checker) count(k string) { c.counts[k]++ }
@@ -335,6 +411,7 @@ func (c *checker) checkDecode(t *tm.Type, top bool, orig tm.Val, b []byte, wantO
 		return
 	}
 	c.lawReencode(t, top, b, d, tag, replay)
+	c.lawReusedDestination(t, top, b, want, wantRest, tag, replay)
 }
 
 // lawReencode: whatever decodes re-encodes to exactly the bytes that were consumed.
